@@ -14,7 +14,7 @@ fn store(a: f64, b: f64, c: f64, d: f64) -> ParsedParameters {
     p
 }
 
-//@h {"id":"C11.K.unitconvert.fwd","props":["C11","C10","C09","C02"],"tier":"quick","kind":"bounded","bound":"coordinates: all f64 bit patterns; unit factors: power-of-two probes (2, 1/8; 4, 1/32)","timeout":900,"text":"unitconvert fwd multiplies x and y by xy_in * (1/xy_out), z by z_in * (1/z_out), leaves t bit-identical, counts every tuple; second tuple transformed independently"}
+//@h {"id":"C11.K.unitconvert.fwd","props":["C11","C10","C09","C02"],"tier":"quick","kind":"bounded","bound":"coordinates: all f64 bit patterns; unit factors: power-of-two probes (2, 1/8; 4, 1/32)","timeout":1800,"text":"unitconvert fwd multiplies x and y by xy_in * (1/xy_out), z by z_in * (1/z_out), leaves t bit-identical, counts every tuple; second tuple transformed independently"}
 #[kani::proof]
 #[kani::unwind(20)]
 #[kani::stub(crate::op::ParsedParameters::real, stub_real)]
@@ -30,7 +30,7 @@ fn c11_unitconvert_fwd() {
     assert!(same(data[1][0], c1[0] * 0.25) && same(data[1][2], c1[2] * 0.125) && beq(data[1][3], c1[3]), "C02.K.unitconvert.independent: second tuple gets the same treatment");
 }
 
-//@h {"id":"C11.K.unitconvert.inv","props":["C11","C01","C09"],"tier":"quick","kind":"bounded","bound":"coordinates: all f64 bit patterns; unit factors: power-of-two probes","timeout":900,"text":"unitconvert inv divides by the same ratios; t bit-identical"}
+//@h {"id":"C11.K.unitconvert.inv","props":["C11","C01","C09"],"tier":"quick","kind":"bounded","bound":"coordinates: all f64 bit patterns; unit factors: power-of-two probes","timeout":1800,"text":"unitconvert inv divides by the same ratios; t bit-identical"}
 #[kani::proof]
 #[kani::unwind(20)]
 #[kani::stub(crate::op::ParsedParameters::real, stub_real)]
@@ -44,7 +44,7 @@ fn c11_unitconvert_inv() {
     assert!(beq(data[0][3], c0[3]), "C10.K.unitconvert.frame: t bit-identical");
 }
 
-//@h {"id":"C11.K.units.names","props":["C11"],"tier":"quick","kind":"complete","timeout":900,"text":"every name in LINEAR_UNITS and ANGULAR_UNITS resolves, through get_pivot_multiplier, to the factor listed in its own row (symbolic row index over both tables)"}
+//@h {"id":"C11.K.units.names","props":["C11"],"tier":"quick","kind":"complete","timeout":1800,"text":"every name in LINEAR_UNITS and ANGULAR_UNITS resolves, through get_pivot_multiplier, to the factor listed in its own row (symbolic row index over both tables)"}
 #[kani::proof]
 #[kani::unwind(40)]
 fn c11_units_names() {
